@@ -45,7 +45,12 @@ fn build(a: &mut Allocator, spends: &[Spend]) -> NodePtr {
             let cond = a.new_pair(op, args).unwrap();
             conds = a.new_pair(cond, conds).unwrap();
         }
-        let parent = a.new_atom(&[s.parent; 32]).unwrap();
+        // parent bytes >= 0xf0 name a coin created in the bundle: the child of the coin ([b - 0xf0; 32], [2; 32], 1000)
+        let parent = if s.parent >= 0xf0 {
+            let mut h = chia_sha2::Sha256::new();
+            h.update([s.parent - 0xf0; 32]); h.update([2u8; 32]); h.update(be(1000));
+            a.new_atom(&h.finalize()).unwrap()
+        } else { a.new_atom(&[s.parent; 32]).unwrap() };
         let ph = a.new_atom(&[2u8; 32]).unwrap();
         let amount = num(a, s.amount);
         let sp = a.new_pair(conds, nil).unwrap();
@@ -151,6 +156,25 @@ pub fn families() -> Vec<(String, Vec<Spend>)> {
             Spend { parent: 5, amount: 7, conds: vec![c(60, vec![b"note".to_vec()]), c(85, vec![be(1_000_000)])] },
         ]));
     }
+    // coins created and spent in the same bundle (the child of coin 1 with the shared puzzle hash, amount 400); acceptance may not
+    // depend on whether the parent's spend is listed before or after the child's
+    for (nm, child_conds) in [("ephemeral-asserted", vec![c(76, vec![])]), ("ephemeral-relative-height", vec![c(82, vec![be(1)])]),
+                              ("ephemeral-relative-seconds", vec![c(80, vec![be(1)])]), ("ephemeral-before-relative", vec![c(86, vec![be(100)])]),
+                              ("ephemeral-birth", vec![c(74, vec![be(5)])]), ("ephemeral-plain", vec![c(81, vec![be(5)])])] {
+        out.push((nm.to_string(), vec![
+            Spend { parent: 1, amount: 1000, conds: vec![c(51, vec![vec![2u8; 32], be(400)])] },
+            Spend { parent: 0xf1, amount: 400, conds: child_conds.clone() },
+        ]));
+        out.push((format!("{nm}-child-first"), vec![
+            Spend { parent: 0xf1, amount: 400, conds: child_conds },
+            Spend { parent: 1, amount: 1000, conds: vec![c(51, vec![vec![2u8; 32], be(400)])] },
+        ]));
+    }
+    // ASSERT_EPHEMERAL on a coin that no spend of the bundle creates
+    out.push(("ephemeral-asserted-not-created".into(), vec![
+        Spend { parent: 1, amount: 1000, conds: vec![c(51, vec![vec![2u8; 32], be(401)])] },
+        Spend { parent: 0xf1, amount: 400, conds: vec![c(76, vec![])] },
+    ]));
     // the spend-count limit
     for n in [5999usize, 6000, 6001] {
         let v: Vec<Spend> = (0..n).map(|i| Spend { parent: 10, amount: 1 + i as u64, conds: vec![] }).collect();
@@ -253,6 +277,13 @@ fn expected_verdicts() -> Vec<(&'static str, &'static str, &'static str, bool)> 
         ("unknown-opcode", "none", "", true), ("unknown-opcode", "none", "NO_UNKNOWN_CONDS", false),
         ("extra-argument", "none", "", true), ("extra-argument", "none", "STRICT_ARGS_COUNT", false),
         ("improper-terminator", "none", "", true), ("improper-terminator", "none", "STRICT_ARGS_COUNT", false),
+        ("ephemeral-asserted", "none", "", true), ("ephemeral-asserted-child-first", "none", "", true), ("ephemeral-asserted-not-created", "none", "", false),
+        ("ephemeral-relative-height", "none", "", false), ("ephemeral-relative-height-child-first", "none", "", false),
+        ("ephemeral-relative-seconds", "none", "", false), ("ephemeral-relative-seconds-child-first", "none", "", false),
+        ("ephemeral-before-relative", "none", "", false), ("ephemeral-before-relative-child-first", "none", "", false),
+        ("ephemeral-birth", "none", "", false), ("ephemeral-birth-child-first", "none", "", false),
+        ("ephemeral-plain", "none", "", true), ("ephemeral-plain-child-first", "none", "", true),
+        ("ephemeral-asserted", "cost-conditions", "all-three", true), ("ephemeral-asserted-child-first", "cost-conditions", "all-three", true),
     ]
 }
 
